@@ -54,7 +54,16 @@ def cells(lo=0.5, hi=500.0, gmin=0.02):
         st.builds(lambda x, al: [x, x, x, al, al, al], a, fl(25.0, 115.0)),
         st.builds(lambda x, y, z, be: [x, y, z, 90.0, be, 90.0], a, a, a, fl(50.0, 130.0)),
     )
-    return st.one_of(general, general, oblique, oblique, boundary, fam)
+    # angles a hair away from the special values 90 / 120 / 60 (pseudo-symmetric cells): 1e-9 .. 1e-1 degrees off
+    off = st.tuples(logfl(1e-9, 1e-1), st.sampled_from([-1.0, 1.0])).map(lambda t: t[0] * t[1])
+    near = st.builds(lambda x, y, z, d1, d2, d3, g: [x, y, z, 90.0 + d1, 90.0 + d2, g + d3], a, a, a, off, off, off,
+                     st.sampled_from([90.0, 90.0, 120.0, 60.0]))
+    return st.one_of(general, general, oblique, oblique, boundary, fam, near)
+
+
+def perturbed(cell, rel):
+    """a cell differing from `cell` by a relative amount rel in every parameter (successive near-identical inputs)"""
+    return [cell[0] * (1 + rel), cell[1] * (1 - rel), cell[2] * (1 + 0.5 * rel), cell[3] * (1 + 0.3 * rel), cell[4] * (1 - 0.2 * rel), cell[5] * (1 + 0.1 * rel)]
 
 
 def is_oblique(cell, deg=5.0):
